@@ -13,8 +13,12 @@ QUANTS = [0, 0, 0, 2, 3, 4, 8, 16, 32]   # <= 32: the swept map keeps >= 8 disti
 
 
 def _fan_line(fid, kind, cfgmap, minmax, hasrpm, ns, quant, spinat):
+    # mapstyle only matters to the Go side (which configured map is used); the model's verdict is the same for every
+    # configured map: used as is, never swept
+    # (non-identity maps only on a device that reads back exactly what is written, else the user's map lies)
+    style = ["identity", "plateau", "shifted"][spinat % 3] if quant <= 1 else "identity"
     return (f"su.fan fan={fid} kind={kind} cfgmap={int(cfgmap)} minmax={int(minmax)} hasrpm={int(hasrpm)} "
-            f"ns={int(ns)} quant={quant} spinat={spinat}")
+            f"ns={int(ns)} quant={quant} spinat={spinat} mapstyle={style}")
 
 
 def _rand_fan(r, fid, kind=None, hasrpm=None, cfgmap=None):
